@@ -391,15 +391,17 @@ MAIN = r"""
 #include <cstdio>
 #include <cstdlib>
 #include <cstring>
+#include <sanitizer/asan_interface.h>
 int main() {
   unsigned long n, count, x; int fn_kind, is_null;
   if (scanf("%lu %lu %lu %d %d", &n, &count, &x, &fn_kind, &is_null) != 5) return 2;
-  // exact-size allocation at the promised alignment: ASan catches any access past n
-  unsigned char* raw = static_cast<unsigned char*>(malloc(n + 64));
-  unsigned long a = reinterpret_cast<unsigned long>(raw);
-  unsigned long pad = (ALIGN_A - (a % ALIGN_A)) % ALIGN_A + ALIGN_O;
-  unsigned char* exact = static_cast<unsigned char*>(aligned_alloc(64, ((n + pad + 63) / 64 + 1) * 64));
-  (void)exact;
+  // exact-size allocation at the promised alignment: the buffer ends where the heap block ends and the
+  // lead-in bytes are poisoned, so ASan reports any access outside [p, p+n)
+  unsigned long pad = ALIGN_O;  // malloc returns 16-byte aligned blocks and ALIGN_A <= 16
+  unsigned char* raw = static_cast<unsigned char*>(malloc(n + pad ? n + pad : 1));
+  if (reinterpret_cast<unsigned long>(raw) % 16 != 0) return 2;
+  if (pad) __asan_poison_memory_region(raw, pad);
+  if (n + pad == 0) __asan_poison_memory_region(raw, 1);
   unsigned char* p = raw + pad;
   for (unsigned long i = 0; i < count; ++i) { unsigned b; if (scanf("%x", &b) != 1) return 2; if (i < n) p[i] = (unsigned char)b; }
   if (is_null) p = nullptr;
@@ -414,6 +416,7 @@ int main() {
   printf("\n");
 #endif
   printf("vsize %u vsigned %d\n", KVSIZE(), KVSIGNED() ? 1 : 0);
+  __asan_unpoison_memory_region(raw, n + pad ? n + pad : 1);
   free(raw);
   return 0;
 }
@@ -459,7 +462,10 @@ def native_run(cfg, n, data, x=0, fn_kind=0, writable=False, is_null=False):
             elif parts[0] == "vsize":
                 obs["vsize"], obs["vsigned"] = int(parts[1]), int(parts[3])
         if rc != 0:
-            obs["crash"] = (err or out)[-1500:]
+            text = err or out
+            key_lines = [l for l in text.splitlines() if "ERROR:" in l or "runtime error" in l or "SUMMARY:" in l
+                         or "Assertion" in l or " of size " in l]
+            obs["crash"] = ("\n".join(key_lines[:6]) + "\n" if key_lines else "") + text[-300:]
         return obs
     finally:
         shutil.rmtree(d, ignore_errors=True)
